@@ -106,6 +106,14 @@ def build_pool():
     add(tflow.tdummyflow())
     add(tflow.tdummyflow(err=True), marked="dummy", comment="GET", metadata={"hello": "GET"})
     f = tflow.tdummyflow(); f.client_conn.peername = None; add(f)
+    # flows that tell \d/\D, \w/\W, \s/\S, \b/\B apart: URL without digits, bodies all digits / without digits or blanks / with blanks
+    add(tflow.tflow(req=tutils.treq(host="example.test", port=80, path=b"/abc", headers=H(((b"host", b"example.test"),)), content=b"12345"),
+                    resp=tutils.tresp(content=b"hello", status_code=200, headers=H(((b"etag", b"777"),)))),
+        marked="42", comment="nodigits", metadata={"k": "v"})
+    add(tflow.tflow(req=tutils.treq(host="example.test", port=80, path=b"/", headers=H(((b"x", b"a b"),)), content=b"a b\tc"),
+                    resp=tutils.tresp(content=b"...---", status_code=200, headers=H(((b"y", b"--"),)))),
+        marked="-", comment="  ", metadata={})
+    add(tflow.ttcpflow(messages=[tcp.TCPMessage(True, b"2024", 1.0), tcp.TCPMessage(False, b"----", 2.0)]))
     return P
 
 
@@ -238,11 +246,15 @@ def tree_ops(t):
     return 1 + sum(tree_ops(x) for x in t[1])
 
 
+# regexes that differ only in the case of an escape class mean different things although matching is case-insensitive
+CASE_PAIRS = [("\\d", "\\D"), ("\\w", "\\W"), ("\\s", "\\S"), ("\\b", "\\B"), ("^\\d+$", "^\\D+$"), ("\\w\\S\\w", "\\W\\S\\W"),
+              ("\\w\\s\\w", "\\w\\S\\W"), ("^\\w+$", "^\\W+$"), ("\\bget\\b", "\\Bget\\B"), ("e\\b", "E\\B"), ("[\\d]", "[\\D]"),
+              ("\\d|\\s", "\\D|\\S")]
 ARGS = ["GET", "get", "POST", "example", "example\\.com", "address", "hello", "world", "200", "2..", "^host", "^content-type: text",
         "html$", "qvalue$", "^header: qvalue$", ".", ".*", "", "a|b", "hello|GET", "\\d+", "\\w+@", "foo.*bar", "[a-c]+", "it's", "\"q\"",
         "a b", "a\tb", "line2", "first line$", "^second", "second line", "key: value", ":star:", "x", "star", "^$", "^", "café",
         "шгн", "é", "path", "/path$", "22$", "127\\.0", "dns.google", "google$", "(a|b)", "\\(a\\|b\\)", "!x", "&", "|",
-        "!", "a&b", "a!b", "~q", "\\\\", "\\.", "\\", "it\\'s", "^GET$", "png", "image/", "\\x00", " ", "a\x0bb", "n: 200", "8\\.8", "me$"]
+        "!", "a&b", "a!b", "~q", "\\\\", "\\.", "\\", "it\\'s", "^GET$", "png", "image/", "\\x00", " ", "a\x0bb", "n: 200", "8\\.8", "me$"] + [a for pair in CASE_PAIRS for a in pair]
 
 
 def gen_atom(rng):
@@ -415,7 +427,7 @@ class Check(PropertyCheck):
                   "expression, tabs kept); the operator tables are regenerated from flowfilter.py on every run and their side "
                   "conditions (alphanumeric, disjoint) re-proved by evaluation. Tie: the compiled model is compared with the real "
                   "flowfilter.parse on every generated rendering and on mutated/raw strings (same tree or same refusal, same verdicts "
-                  "on a pool of 45 flows of every type when fed the real leaves' verdicts); every generated layout is also sent as a "
+                  "on a pool of 48 flows of every type when fed the real leaves' verdicts); every generated layout is also sent as a "
                   "term of the Lean concrete syntax and must print (Lean `render`) to the tested text, satisfy the Lean `WF` and "
                   "denote (Lean `ast`) the tested tree, so the tested texts are instances of the theorem's hypothesis; the real code "
                   "is checked directly against the tree that was written and an independent reference reading of every operator.")
@@ -433,9 +445,12 @@ class Check(PropertyCheck):
             "precedence levels (writable without parentheses, up to 4-5 levels deep), 25% arbitrary nesting up to the tier depth "
             "(4 quick / 6 thorough), each rendered once with random layout under a per-case budget of parenthesised groups "
             "(quick 80% none / 17% one / 3% two levels; thorough 50/30/16/4% up to three levels; a case whose real parse exceeds 4 s / 12 s is skipped); thorough first enumerates every "
-            "tree of depth <=2 over 5 atoms (one per leaf kind) in canonical and random layout; 15% mutated renderings, raw token "
+            "tree of depth <=2 over 5 atoms (one per leaf kind) in canonical and random layout; first of all, for every regex operator, pairs of regexes that differ only in the case of an escape class "
+            "(\\d/\\D, \\w/\\W, \\s/\\S, \\b/\\B, alone and inside longer regexes) as SEQUENCE cases (both orders, parsed and "
+            "evaluated one after the other in one process) and inside one tree, plus ~4% random sequences later - the verdict "
+            "must not depend on what was parsed before; 15% mutated renderings, raw token "
             "soups and quoted-escape soups for the model tie only. distinct = distinct text; non-trivial = not a bare unary code.")
-    budget = {"quick": 1500, "thorough": 200000}
+    budget = {"quick": 8000, "thorough": 200000}
     time_budget = {"quick": 24, "thorough": 540}
     fingerprints = ["mitmproxy.flowfilter:_make", "mitmproxy.flowfilter:parse", "mitmproxy.flowfilter:FAnd", "mitmproxy.flowfilter:FOr",
                     "mitmproxy.flowfilter:FNot", "mitmproxy.flowfilter:_Rex.__init__", "mitmproxy.flowfilter:_Int.__init__",
@@ -448,6 +463,7 @@ class Check(PropertyCheck):
     def __init__(self):
         self.pool = None
         self._ref_cache = {}
+        self._last_atoms = {}
 
     # ---- (T) operator tables -------------------------------------------------------------------
     def translate(self):
@@ -493,12 +509,17 @@ class Check(PropertyCheck):
         maxd = 4 if tier == "quick" else 6
         if tier == "thorough":
             for c in self.exhaustive(tier): yield c
+        for c in self.pair_cases(rng, 5 if tier == "quick" else len(CASE_PAIRS)): yield c
         # pyparsing needs ~10 ms for an expression without parentheses, ~100 ms with one group, 0.3-1 s with two levels
         GROUPS = {"quick": [(80, (0, 0)), (17, (1, 1)), (3, (2, 3))],
                   "thorough": [(50, (0, 0)), (30, (1, 2)), (16, (2, 3)), (4, (3, 4))]}[tier]
         while True:
             r = rng.random()
             gb = rng.weighted(GROUPS)
+            if rng.chance(0.04):
+                c = self._seq(rng, rng.pick(REX), rng.pick(CASE_PAIRS), rng.randint(2, 4))
+                if c: yield c
+                continue
             if r < 0.60:
                 c = self._case(gen_prec(rng, 4, gb[0]), rng, p_red=0.03 if gb[0] else 0.0, groups=gb)
                 if c: yield c
@@ -529,6 +550,36 @@ class Check(PropertyCheck):
                 pre = rng.pick(["", "~u ", "~b", "~h  ", "~c ", "~q", "!", "a ", "~c 12", "~cx ", "~hq\t"])
                 post = rng.pick(["", "", " b", "&c", ")", "~q", "x", "|", " | d"])
                 yield self._raw(pre + q + body + (q if rng.chance(0.9) else "") + post, 1)
+
+    def _seq(self, rng, code, pair, n):
+        """n expressions over one operator whose regexes differ only in the case of an escape class, in random order,
+        some of them combined in one tree - parsed and evaluated one after the other in one process"""
+        lo, up = pair
+        if not (compiles(code, lo) and compiles(code, up)): return None
+        items = []
+        for _ in range(n):
+            a, b = (lo, up) if rng.chance(0.5) else (up, lo)
+            form = rng.randint(0, 3)
+            if form == 0: t = ["R", code, a]
+            elif form == 1: t = ["O", [["R", code, a], ["R", code, b]]]
+            elif form == 2: t = ["A", [["N", ["R", code, a]], ["R", code, b]]]
+            else: t = ["A", [["R", code, a], ["U", rng.pick(UNARY)]]]
+            c = self._case(t, rng, groups=(0, 0), p_red=0.0)
+            if c: items.append(c)
+        return {"kind": "seq", "items": items} if len(items) >= 2 else None
+
+    def pair_cases(self, rng, per_op):
+        """every regex operator with `per_op` of the case-differing pairs: the two spellings one after the other in both
+        orders (sequence cases), and both in one tree in both orders"""
+        for code in REX:
+            pairs = [p for p in CASE_PAIRS if compiles(code, p[0]) and compiles(code, p[1])]
+            rng.shuffle(pairs)
+            for lo, up in pairs[:per_op]:
+                for a, b in ((lo, up), (up, lo)):
+                    one = [self._case(["R", code, x], rng, canonical=True, groups=(0, 0)) for x in (a, b, a)]
+                    yield {"kind": "seq", "items": one}
+                    c = self._case(["O", [["R", code, a], ["R", code, b]]], rng, groups=(0, 0), p_red=0.0)
+                    if c: yield c
 
     def _raw(self, s, max_open=3):
         # keep pyparsing's exponential re-parsing in check: at most `max_open` opening parentheses in a raw string
@@ -572,6 +623,8 @@ class Check(PropertyCheck):
         raw cases: one character dropped"""
         from common.prng import Rng
         rng = Rng(7)
+        if case.get("kind") == "seq":
+            return      # not shrunk: a shorter sequence would be judged in a different history of the process
         if case.get("kind") == "render":
             t = case["tree"]
             def subs(t):
@@ -604,6 +657,63 @@ class Check(PropertyCheck):
                 c = self._case(case["tree"], rng)
                 if c: yield c
 
+    # ---- sequences: the verdict of an expression is a function of the expression and the flow only, whatever was
+    # parsed before in the same process.  A "seq" case holds a short list of render/raw items evaluated in order.
+    @staticmethod
+    def _items(case):
+        return case["items"] if case.get("kind") == "seq" else None
+
+    def impl(self, case):
+        self._last_atoms = {}
+        items = self._items(case)
+        if items is None: return self._impl_one(case)
+        return {"items": [self._impl_one(it) for it in items]}
+
+    def oracle(self, case, obs):
+        items = self._items(case)
+        if items is None: return self._oracle_one(case, obs)
+        return ["#%d %s" % (i, f) for i, (it, o) in enumerate(zip(items, obs["items"])) for f in self._oracle_one(it, o)]
+
+    def known(self, case, obs, failure):
+        items = self._items(case)
+        if items is None: return self._known_one(case, obs, failure)
+        m = re.match(r"#(\d+) (.*)", failure, re.S)
+        if not m: return None
+        i = int(m.group(1))
+        return self._known_one(items[i], obs["items"][i], m.group(2))
+
+    def model_lines(self, case):
+        items = self._items(case)
+        if items is None: return self._lines_one(case)
+        return [l for it in items for l in self._lines_one(it)]
+
+    def model_obs(self, case, replies):
+        items = self._items(case)
+        if items is None: return self._mobs_one(case, replies)
+        out, k = [], 0
+        for it in items:
+            n = 2 if it.get("conc") else 1
+            out.append(self._mobs_one(it, replies[k:k + n])); k += n
+        return out
+
+    def impl_view(self, case, obs):
+        items = self._items(case)
+        if items is None: return self._iview_one(case, obs)
+        return [self._iview_one(it, o) for it, o in zip(items, obs["items"])]
+
+    def classify(self, case, obs):
+        items = self._items(case)
+        if items is None: return self._classify_one(case, obs)
+        return "seq:" + "/".join(it["s_hex"] for it in items)
+
+    def branches(self, case, obs):
+        items = self._items(case)
+        if items is None: return self._branches_one(case, obs)
+        out = ["seq", "seq-len:%d" % len(items)]
+        for it, o in zip(items, obs["items"]):
+            out += [b for b in self._branches_one(it, o) if b in ("accepted", "rejected", "verdict-mixed")]
+        return out
+
     # ---- implementation runner -----------------------------------------------------------------
     def _parse_limited(self, s):
         """flowfilter.parse under a wall-clock limit: pyparsing's infix_notation re-parses every operand at every
@@ -625,18 +735,18 @@ class Check(PropertyCheck):
             signal.signal(signal.SIGALRM, old_handler)
             if old[0] > 0: signal.setitimer(signal.ITIMER_REAL, max(0.01, old[0] - (time.time() - t0)))
 
-    def impl(self, case):
+    def _impl_one(self, case):
         if self.pool is None: self.setup("quick")
         s = untx(case["s_hex"])
         try:
             flt = self._parse_limited(s)
         except ValueError:
-            self._last = (case["s_hex"], [])
+            self._last_atoms[case["s_hex"]] = []
             return {"shape": "reject", "v": None, "atoms": []}
         atoms = atoms_of_tok(flt, [])
         bits = lambda t: "".join("1" if t(f) else "0" for f in self.pool)
         obs = {"shape": shape_of_tok(flt), "v": bits(flt), "atoms": [bits(a) for a in atoms]}
-        self._last = (case["s_hex"], obs["atoms"])
+        self._last_atoms[case["s_hex"]] = obs["atoms"]
         return obs
 
     # ---- reference semantics ---------------------------------------------------------------------
@@ -666,7 +776,7 @@ class Check(PropertyCheck):
         return [f(c[i] for c in cols) for i in range(len(self.pool))]
 
     # ---- the property, as a predicate over the implementation's observable -------------------
-    def oracle(self, case, obs):
+    def _oracle_one(self, case, obs):
         if case["kind"] != "render": return []
         tree = case["tree"]
         # "Every filter expression built from the documented operators ... is accepted"
@@ -685,7 +795,7 @@ class Check(PropertyCheck):
                          % (untx(case["s_hex"]), i, type(self.pool[i]).__name__, obs["v"][i], ref[i]))
         return fails
 
-    def known(self, case, obs, failure):
+    def _known_one(self, case, obs, failure):
         """F-C42a: exactly the verdicts that become the documented ones when a ~h/~hq/~hs regex is read against the
         CRLF-joined header block (what the code searches) instead of each "name: value" line"""
         if case.get("kind") == "render" and failure.startswith("verdict:") and has_hdr_atom(case["tree"]) and obs.get("v"):
@@ -695,10 +805,10 @@ class Check(PropertyCheck):
         return None
 
     # ---- model tie ---------------------------------------------------------------------------------
-    def model_lines(self, case):
+    def _lines_one(self, case):
         # the per-atom verdicts (the `Sem` parameter of the model's eval) come from the real atom objects, left to right
-        last = getattr(self, "_last", None)
-        atoms = last[1] if last and last[0] == case["s_hex"] else self.impl(case)["atoms"]
+        atoms = self._last_atoms.get(case["s_hex"])
+        if atoms is None: atoms = self._impl_one(case)["atoms"]
         lines = [" ".join(["px", case["s_hex"]] + atoms)]
         if case.get("conc"):
             # the layout the harness chose, as a term of the Lean concrete syntax `C`: the driver prints it with the Lean
@@ -706,7 +816,7 @@ class Check(PropertyCheck):
             lines.append("rn " + case["conc"])
         return lines
 
-    def model_obs(self, case, replies):
+    def _mobs_one(self, case, replies):
         r = replies[0]
         if r == "reject": return ["reject", None] + ([replies[1]] if len(replies) > 1 else [])
         shape, _, v = r.partition(" ")
@@ -717,7 +827,7 @@ class Check(PropertyCheck):
         out = [shape, v if v != "-" else None]
         return out + [replies[1]] if len(replies) > 1 else out
 
-    def impl_view(self, case, obs):
+    def _iview_one(self, case, obs):
         out = [obs["shape"], obs["v"]]
         if case.get("conc"):
             s = untx(case["s_hex"]); trail = untx(case["trail_hex"])
@@ -725,11 +835,11 @@ class Check(PropertyCheck):
             out.append("%s 1 %s" % (tx(body), shape_of_tree(case["tree"])))
         return out
 
-    def classify(self, case, obs):
+    def _classify_one(self, case, obs):
         if case["kind"] == "render" and tree_ops(case["tree"]) == 0 and case["tree"][0] == "U": return None
         return case["s_hex"]
 
-    def branches(self, case, obs):
+    def _branches_one(self, case, obs):
         out = [case["kind"], "accepted" if obs["shape"] != "reject" else "rejected"]
         s = untx(case["s_hex"])
         if case["kind"] == "render":
